@@ -838,6 +838,7 @@ func (t *ZeroAllocTokenizer) tokenizeObjectContents(content string) {
 	stringDelim := byte(0)
 	inObject := 0
 	inArray := 0
+	inParen := 0
 
 	start := 0
 	colonPos := -1
@@ -848,7 +849,7 @@ func (t *ZeroAllocTokenizer) tokenizeObjectContents(content string) {
 		isComma := !atEnd && content[i] == ','
 
 		// Process key-value pair when we find a comma or reach the end
-		if (isComma || atEnd) && inObject == 0 && inArray == 0 && !inString {
+		if (isComma || atEnd) && inObject == 0 && inArray == 0 && inParen == 0 && !inString {
 			if colonPos != -1 {
 				// We have a key-value pair
 				keyStr := strings.TrimSpace(content[start:colonPos])
@@ -916,10 +917,14 @@ func (t *ZeroAllocTokenizer) tokenizeObjectContents(content string) {
 			inArray++
 		} else if c == ']' {
 			inArray--
+		} else if c == '(' {
+			inParen++
+		} else if c == ')' {
+			inParen--
 		}
 
 		// Track colon position for key-value separator
-		if c == ':' && inObject == 0 && inArray == 0 && colonPos == -1 {
+		if c == ':' && inObject == 0 && inArray == 0 && inParen == 0 && colonPos == -1 {
 			colonPos = i
 		}
 	}
